@@ -61,6 +61,12 @@ func (m *PubackMessage) Decode(src []byte) (int, error) {
 		return total, err
 	}
 
+	// The packet identifier must lie inside the packet, not in whatever follows
+	// it in the buffer.
+	if m.remlen < 2 {
+		return total, fmt.Errorf("puback/Decode: Remaining length (%d) too small for a packet identifier", m.remlen)
+	}
+
 	//this.packetId = binary.BigEndian.Uint16(src[total:])
 	m.packetID = src[total : total+2]
 	total += 2
